@@ -242,7 +242,9 @@ def extract_as_and_target_segment(
     target = sublist[0]
     if target.type == "keyword" and target.raw_upper == "LATERAL":
         target = sublist[1]
-    table_expr = target if is_subquery(target) else target.segments[0]
+    table_expr = (
+        target if is_subquery(target) or not target.segments else target.segments[0]
+    )
     return as_segment, table_expr
 
 
